@@ -22,6 +22,10 @@ CLAIMED = {
          "Proof (partial): validity of every sub-grid operation (every reachable element offset < buffer length), split/groups pairwise disjoint + within parent + cover, merge = union and merge-of-split restores, get/get_row in bounds, refill fast path in bounds for every reader history, ANS index < table length for every accepted histogram and state, squeeze horizontal AVX2/SSE4.1 access plans in bounds for all widths/heights and scratch written before read are Lean theorems about the model. Partial because Lean cannot speak about Rust's aliasing model, provenance or lifetimes: the theorems are index arithmetic and ownership geometry; the tie to the code is differential testing. Vertical squeeze kernels, NEON/wasm kernels, EPF/Gabor/DCT SIMD, fb.rs, as_vectored are not modelled (vertical squeeze and RCT are run with canaries; the rest is outside this check). Canary/valgrind runs are implementation-side oracles, not proofs.",
          "Trusted: Lean kernel, axioms propext/Classical.choice/Quot.sound, the correspondence harness and its source pins, usize = 64 bit, x86-64 with the CPU paths this machine selects (AVX2; SSE4.1 kernels called directly). Observation (not a violation of C02 as stated, not reachable from decoded bytes): in the optimised build the safe functions into_groups_with_fixed_count and from_buf are unsound for arguments whose products overflow usize (witness theorems + corpus/c02 replay, fix proposed).",
          "DESIGN.md §4 C02, §3 H7"),
+ "C19": ("Lean 4 theorems about a byte-level model of ICC synthesis and recognition (layout invariant by induction, parse∘synth symbolically for every RGB/grey encoding, all 432 named enum combinations end to end in exact integer arithmetic, gamma-field round trip, s15Fixed16 bounds), about the transfer curves over the reals (Mathlib rpow/log/exp) and about the no-op decision; differential correspondence of the model (f32 arithmetic repeated operation for operation at Float32, byte-exact) and of the Float curves with colour_encoding_to_icc / ColorEncodingWithProfile::with_icc / ColorTransform / JxlImage::rendered_icc on the real crates",
+         "Proof: C19_synth_structurally_valid, C19_parse_synth_enum_fields (symbolic, custom parts included), C19_parse_synth_named_enums, C19_gamma_field_roundtrip, C19_same_encoding_is_noop and the real-number inverse/monotone theorems for gamma, DCI, BT.709 (full), sRGB (all but a 1e-8 sliver; the sliver and the non-monotone breakpoints are proved false on the standard's constants), PQ (inverse, encode monotone), HLG (piecewise, _partial). Partial: every claim about the f32 kernels (round-trip tolerance per curve, monotone on grids, scalar vs vector lanes) and about the f32 chromaticity arithmetic (custom xy within 1e-4) is measured by the correspondence run, not proved; the latter is false outside a well-conditioned domain (known finding).",
+         "Trusted: Lean kernel, axioms propext/Classical.choice/Quot.sound, Mathlib single modules, the correspondence harness, the machine's IEEE-754 arithmetic and libm (PQ/HLG tables compared within one unit). Tolerances: 1e-5 relative + 2e-7 for power-law/sRGB/HLG, 1e-4 relative + 1e-6*(10000/intensity_target) for PQ. Domain of the gamma round trip: validated header range 1221..1e7. Requires the fix-F5-* and fix-C19-* patches in /repo; unrepaired defects are listed in known_findings.json.",
+         "DESIGN.md §4 C19, §8 F5"),
 }
 NOT_YET = "machinery for this property is not built yet in this snapshot (planned, see DESIGN.md §4/§10); it is claimed as soon as its theorems and correspondence check land"
 
